@@ -138,6 +138,19 @@ def generate(name):
                 text = rewrite_sched(rel, text, arch, osname, counts)
             if rel == "lib.rs":
                 text = "#![allow(warnings)]\n" + text
+                if kind == "sim" and arch == "aarch64" and osname == "macos":
+                    # optional direct seam for the macOS long-jump emitter (C15, +/-4 GiB pairs);
+                    # if the function is renamed or its shape changes the sub-check is skipped
+                    cg = os.path.join(src_root, "injector_core", "arm64_codegenerator.rs")
+                    have = False
+                    try:
+                        have = re.search(r"fn\s+maybe_emit_long_jump\s*\(\s*pc\s*:\s*usize\s*,\s*target\s*:\s*usize\s*\)\s*->\s*Vec<u32>", open(cg).read()) is not None
+                    except OSError:
+                        pass
+                    if have:
+                        text += "\npub fn __verif_long_jump(pc: usize, target: usize) -> Option<Vec<u32>> { Some(crate::injector_core::arm64_codegenerator::maybe_emit_long_jump(pc, target)) }\n"
+                    else:
+                        text += "\npub fn __verif_long_jump(_pc: usize, _target: usize) -> Option<Vec<u32>> { None }\n"
             dst = os.path.join(out_root, "src", rel)
             wanted.add(dst)
             write_if_changed(dst, text)
